@@ -38,11 +38,16 @@ semi-sync switched off, re-pointed to the recorded master and marked — in that
 theorem stale_master_marked (st : NodeState) (master : String) (h : st.isMaster = true) :
     ∃ pre, Recovery.repairStaleMaster st master = pre ++ [.setOffline, .semiSyncDisable, .changeMaster master, .setRecovery] ∧
       (st.isReadOnly = false → pre = [.setReadOnly]) := by
-  sorry
+  unfold Recovery.repairStaleMaster
+  rw [h]
+  refine ⟨_, rfl, fun hro => ?_⟩
+  simp [hro]
 
 theorem not_master_not_marked_here (st : NodeState) (master : String) (h : st.isMaster = false) :
     Recovery.StaleAct.setRecovery ∉ Recovery.repairStaleMaster st master := by
-  sorry
+  unfold Recovery.repairStaleMaster
+  rw [h]
+  cases st.isReadOnly <;> simp
 
 /-- `SetRecovery` removes the host from the published list FIRST and creates the mark only after that
 write succeeded -/
@@ -51,14 +56,28 @@ theorem set_recovery_list_first (active : List String) (host : String) (setOk ma
     (∀ l, Recovery.Write.setActiveNodes l ∈ r.1 → host ∉ l ∧ ∀ x, x ∈ l ↔ (x ∈ active ∧ x ≠ host)) ∧
     (Recovery.Write.createRecoveryMark host ∈ r.1 → setOk = true ∧
       r.1 = [.setActiveNodes (active.filter (· != host)), .createRecoveryMark host]) := by
-  sorry
+  intro r
+  have hr : r.1 = _ := RecoveryLemmas.setRecovery_writes active host setOk markOk
+  constructor
+  · intro l hl
+    have : l = active.filter (· != host) := by
+      rw [hr] at hl
+      cases setOk <;> simpa using hl
+    subst this
+    exact ⟨fun hc => ((RecoveryLemmas.mem_filter_ne active host host).mp hc).2 rfl,
+      fun x => RecoveryLemmas.mem_filter_ne active host x⟩
+  · intro hmk
+    rw [hr] at hmk ⊢
+    cases setOk
+    · simp at hmk
+    · exact ⟨rfl, rfl⟩
 
 /-- while marked a host is never a member of a list computed by the manager — unless it is itself the
 recorded master -/
 theorem marked_not_listed (delay : Int) (i : ActiveNodes.CalcIn) (host : String) (node : NodeState) (l : List String)
     (hr : i.recovery = some l) (hm : host ∈ l) (hne : host ≠ i.master) :
     (ActiveNodes.classify delay i host node).1.isMember = false := by
-  sorry
+  exact RecoveryLemmas.classify_marked delay i host node l hr hm hne
 
 /-- … and is never promoted by a list mysync wrote: the promoted host is the requested target, which
 must be in the published list, or one of the frozen hosts, which are members of the published list -/
@@ -74,13 +93,17 @@ theorem clear_only_if_clean (i : Recovery.In) (ok : Bool) (h : Recovery.Act.clea
     i.marked = true ∧ i.resetupFile = false ∧ i.readOnly = some true ∧
     ∃ st ex mg, i.status = .replica st ex ∧ st ≠ .error ∧ i.mgtid = some mg ∧
       isSlaveBehindOrEqual (parseD ex) (parseD mg) = true := by
-  sorry
+  obtain ⟨hm, hf, hro, st, ex, mg, _, hs, hg, _, _, _, hpl, _⟩ := RecoveryLemmas.clear_guards i ok h
+  obtain ⟨h1, h2⟩ := RecoveryLemmas.permanentlyLost_false hpl
+  exact ⟨hm, hf, hro, st, ex, mg, hs, h1, hg, h2⟩
 
 /-- in set terms (for well-formed sets): cleared ⇒ the host's transactions ⊆ the master's -/
 theorem clear_means_subset (i : Recovery.In) (ok : Bool) (h : Recovery.Act.clearRecovery ok ∈ Recovery.checkRecovery i)
     (hwf : ∀ t, WF (parseD t)) :
     ∃ st ex mg, i.status = .replica st ex ∧ i.mgtid = some mg ∧ GSubset (parseD ex) (parseD mg) := by
-  sorry
+  obtain ⟨_, _, _, st, ex, mg, _, hs, hg, _, _, _, hpl, _⟩ := RecoveryLemmas.clear_guards i ok h
+  exact ⟨st, ex, mg, hs, hg,
+    RecoveryLemmas.behindOrEqual_subset (hwf ex) (hwf mg) (RecoveryLemmas.permanentlyLost_false hpl).2⟩
 
 /-- if it holds transactions the master lacks or its replication is in error, the resetup marker is
 written instead and the mark stays -/
@@ -89,17 +112,23 @@ theorem resetup_if_ahead_or_error (i : Recovery.In) (st : ReplState) (ex mg mast
     (hu : i.updateHostsOk = true) (hr : i.masterRegistered = true) (hg : i.mgtid = some mg) (hst : i.stuck ≠ .yes)
     (hbad : st = .error ∨ isSlaveAhead (parseD ex) (parseD mg) = true) :
     Recovery.Act.writeResetup ∈ Recovery.checkRecovery i ∧ ∀ ok, Recovery.Act.clearRecovery ok ∉ Recovery.checkRecovery i := by
-  sorry
+  rw [RecoveryLemmas.resetup_char i st ex mg master hm hf hs hma hu hr hg hst
+    (RecoveryLemmas.permanentlyLost_true hbad)]
+  simp
 
 /-- nothing at all while a resetup is pending, or when the host is not marked -/
 theorem inert_when_unmarked_or_resetup (i : Recovery.In) (h : i.marked = false ∨ i.resetupFile = true) :
     Recovery.checkRecovery i = [] := by
-  sorry
+  exact RecoveryLemmas.inert i h
 
 /-- the mark is never cleared together with a resetup request -/
 theorem clear_excludes_resetup (i : Recovery.In) (ok : Bool) (h : Recovery.Act.clearRecovery ok ∈ Recovery.checkRecovery i) :
     Recovery.Act.writeResetup ∉ Recovery.checkRecovery i := by
-  sorry
+  rw [RecoveryLemmas.clear_char i ok h]
+  intro hc
+  rcases List.mem_append.mp hc with hc | hc
+  · rcases RecoveryLemmas.timerActs_mem i _ hc with h | h <;> cases h
+  · simp at hc
 
 -- non-vacuity
 private def good : Recovery.In := { marked := true, resetupFile := false, status := .replica .running "", master := some "m",
